@@ -11,6 +11,7 @@ check it, so `child.end_ = parent.end_` is a hypothesis (`hend`), as is freshnes
 child id.
 -/
 import NoKVModel.Region.CatalogSteps
+import NoKVModel.Region.PersistLemmas
 
 namespace NoKV.Props.C24
 open NoKV NoKV.Region NoKV.Bytes
@@ -504,6 +505,215 @@ theorem C24_disjoint_semantic (rs : Catalog) (hI : CInv rs) (a b : Meta) (ha : a
   have hid : a.id ≠ b.id := fun e => hne (uniq_of_nodup hI.nodup a ha b hb e)
   have := (overlapG_iff a b (hI.proper a ha) (hI.proper b hb)).mpr hex
   rw [hI.disj a ha b hb hid] at this; cases this
+
+/-! ### "the catalog reloads identically after a restart"
+
+`Region/Persist.lean`: the store keeps the catalog in memory and as region edits in the
+manifest; every mutation is one of the primitive persisted writes `POp.upd` / `POp.del`, whose
+manifest append may fail (`ok = false`); the manifest may be rewritten as a snapshot at any
+time; a restart loads the replayed manifest.  `Eqv a b` = the same region under every id. -/
+
+theorem pstep_inv (pc : PCfg) (hc : pc.Good) (s : PS) (h : Eqv (replay s.log) s.mem) (op : POp) :
+    Eqv (replay (pstep pc s op).log) (pstep pc s op).mem := by
+  obtain ⟨h1, h2⟩ := hc
+  cases op with
+  | upd m ok =>
+    cases ok
+    · simpa [pstep, h1] using h
+    · simp only [pstep, h1, if_true]
+      rw [replay_append]; exact eqv_put h m
+  | del i ok =>
+    cases ok
+    · simpa [pstep, h1] using h
+    · simp only [pstep, h1, if_true]
+      rw [replay_append]; exact eqv_del h i
+  | rewrite =>
+    intro id
+    simp only [pstep, snapshot, h2, if_true]
+    rw [replay_snapshot_all]; exact h id
+  | reopen => exact eqv_refl _
+
+theorem prun_inv (pc : PCfg) (hc : pc.Good) (ops : List POp) (s : PS) (h : Eqv (replay s.log) s.mem) :
+    Eqv (replay (ops.foldl (pstep pc) s).log) (ops.foldl (pstep pc) s).mem := by
+  induction ops generalizing s with
+  | nil => exact h
+  | cons op ops ih => exact ih _ (pstep_inv pc hc s h op)
+
+/-- **Reload.**  After any history of persisted catalog writes — successful or failing manifest
+appends, manifest rewrites and restarts, in any order and number — what a restart would load
+(the replay of the manifest) is the in-memory catalog, id by id. -/
+theorem C24_reload (pc : PCfg) (hc : pc.Good) (ops : List POp) :
+    Eqv (replay (prun pc ops).log) (prun pc ops).mem :=
+  prun_inv pc hc ops PS.init (eqv_refl _)
+
+/-- a restart at any point leaves the catalog as it was -/
+theorem C24_restart_identity (pc : PCfg) (hc : pc.Good) (ops : List POp) :
+    Eqv (pstep pc (prun pc ops) .reopen).mem (prun pc ops).mem :=
+  C24_reload pc hc ops
+
+/-- a catalog write whose manifest append fails changes nothing, in memory or on disk -/
+theorem C24_failed_append (pc : PCfg) (hc : pc.Good) (s : PS) (m : Meta) (i : Nat) :
+    pstep pc s (.upd m false) = s ∧ pstep pc s (.del i false) = s := by
+  obtain ⟨h1, _⟩ := hc
+  simp [pstep, h1]
+
+/-- `rs'` is `rs` after some region edits -/
+def Reach (rs rs' : Catalog) : Prop := ∃ es : List REdit, rs' = es.foldl replayEdit rs
+
+theorem Reach.refl (rs : Catalog) : Reach rs rs := ⟨[], rfl⟩
+
+theorem Reach.trans {a b c : Catalog} (h1 : Reach a b) (h2 : Reach b c) : Reach a c := by
+  obtain ⟨e1, rfl⟩ := h1
+  obtain ⟨e2, rfl⟩ := h2
+  exact ⟨e1 ++ e2, by rw [List.foldl_append]⟩
+
+theorem Reach.put (rs : Catalog) (m : Meta) : Reach rs (put rs m) := ⟨[.upd m], rfl⟩
+
+theorem Reach.del (rs : Catalog) (i : Nat) : Reach rs (del rs i) := ⟨[.delete i], rfl⟩
+
+theorem update_reach (c : CatCfg) (rs rs' : Catalog) (m : Meta) (h : update c rs m = some rs') : Reach rs rs' := by
+  unfold update at h
+  split at h
+  · cases h
+  · split at h
+    · cases h; exact Reach.put rs _
+    · cases h
+
+theorem removeRegion_reach (c : CatCfg) (rs rs' : Catalog) (i : Nat) (h : removeRegion c rs i = some rs') :
+    Reach rs rs' := by
+  unfold removeRegion at h
+  split at h
+  · cases h
+  · split at h
+    · cases h
+    · rename_i m _
+      by_cases hs : m.state ≠ 3
+      · rw [if_pos hs] at h
+        cases hu : update c rs { m with state := 3 } with
+        | none => rw [hu] at h; simp at h
+        | some r1 =>
+          rw [hu] at h
+          simp only [Option.map_some, Option.some.injEq] at h
+          subst h
+          exact (update_reach c rs r1 _ hu).trans (Reach.del r1 i)
+      · rw [if_neg hs] at h
+        simp only [Option.map_some, Option.some.injEq] at h
+        subst h; exact Reach.del rs i
+
+theorem split_reach (c : CatCfg) (rs rs' : Catalog) (p : Nat) (ch : Meta) (h : split c rs p ch = some rs') :
+    Reach rs rs' := by
+  unfold split at h
+  split at h
+  · cases h
+  · split at h
+    · cases h
+    · rename_i pm _
+      split at h
+      · cases h
+      · split at h
+        · cases h
+        · simp only at h
+          cases hu1 : update c rs (bumpVer c.splitBumpsVersion { pm with end_ := ch.start }) with
+          | none => rw [hu1] at h; simp at h
+          | some rs1 =>
+            rw [hu1] at h
+            simp only at h
+            cases hu2 : update c rs1 { ch with state := 1 } with
+            | none => rw [hu2] at h; simp at h
+            | some rs2 =>
+              rw [hu2] at h
+              simp only [Option.some.injEq] at h
+              subst h
+              exact (update_reach c rs rs1 _ hu1).trans (update_reach c rs1 rs2 _ hu2)
+
+theorem finishMerge_reach (c : CatCfg) (rs : Catalog) (t' : Meta) (sid : Nat) :
+    Reach rs (finishMerge c rs t' sid).1 := by
+  unfold finishMerge
+  split
+  · exact Reach.refl rs
+  · rename_i rs1 hu
+    split
+    · exact update_reach c rs rs1 _ hu
+    · rename_i rs2 hr
+      exact (update_reach c rs rs1 _ hu).trans (removeRegion_reach c rs1 rs2 sid hr)
+
+theorem merge_reach (c : CatCfg) (rs : Catalog) (t s : Nat) : Reach rs (merge c rs t s).1 := by
+  unfold merge
+  split
+  · split
+    · exact finishMerge_reach c rs _ _
+    · split
+      · exact Reach.refl rs
+      · split
+        · exact finishMerge_reach c rs _ _
+        · split
+          · exact finishMerge_reach c rs _ _
+          · exact Reach.refl rs
+  · exact Reach.refl rs
+
+/-- every admin operation of the catalog model (`cstep`: split, merge, removal, state change,
+including the ones that fail half-way) changes the catalog only through region edits — the
+primitive writes `C24_reload` quantifies over -/
+theorem C24_ops_are_edits (c : CatCfg) (rs : Catalog) (op : COp) : Reach rs (capply c rs op) := by
+  cases op with
+  | split p ch =>
+    show Reach rs (ofOpt rs (Region.split c rs p ch)).1
+    cases h : Region.split c rs p ch with
+    | none => exact Reach.refl rs
+    | some r => exact split_reach c rs r p ch h
+  | merge t s => exact merge_reach c rs t s
+  | remove i =>
+    show Reach rs (ofOpt rs (removeRegion c rs i)).1
+    cases h : removeRegion c rs i with
+    | none => exact Reach.refl rs
+    | some r => exact removeRegion_reach c rs r i h
+  | setState i st =>
+    show Reach rs (ofOpt rs (setState c rs i st)).1
+    cases h : setState c rs i st with
+    | none => exact Reach.refl rs
+    | some r =>
+      unfold setState at h
+      split at h
+      · cases h
+      · split at h
+        · cases h
+        · exact update_reach c rs r _ h
+
+/-- hence: for any history of admin operations starting from a catalog the manifest agrees
+with, some sequence of logged edits makes the manifest replay to the resulting catalog -/
+theorem C24_history_reloads (c : CatCfg) (ops : List COp) (rs : Catalog) (log : List REdit)
+    (h : Eqv (replay log) rs) :
+    ∃ es : List REdit, Eqv (replay (log ++ es)) (ops.foldl (capply c) rs) := by
+  induction ops generalizing rs log with
+  | nil => exact ⟨[], by simpa using h⟩
+  | cons op ops ih =>
+    obtain ⟨e1, he1⟩ := C24_ops_are_edits c rs op
+    have h1 : Eqv (replay (log ++ e1)) (capply c rs op) := by
+      rw [replay_append_list, he1]; exact eqv_foldl h e1
+    obtain ⟨e2, he2⟩ := ih (capply c rs op) (log ++ e1) h1
+    exact ⟨e1 ++ e2, by rw [← List.append_assoc]; exact he2⟩
+
+def wTomb : Meta := { id := 1, start := [0x61], end_ := [0x6d], epoch := ⟨1, 1⟩, state := 3 }
+
+/-- (seeded change C24-m1r2) memory written before the manifest append: a failed append leaves a
+region in memory that a restart does not bring back -/
+theorem C24_fails_persist_after (pc : PCfg) (hc : pc.persistFirst = false) :
+    find (prun pc [.upd wTomb false]).mem 1 = some wTomb ∧
+    find (replay (prun pc [.upd wTomb false]).log) 1 = none := by
+  cases pc with
+  | mk a b => simp only at hc; subst hc; cases b <;> decide
+
+/-- (seeded change C24-m2r2) a snapshot that leaves tombstoned regions out: after a rewrite and
+a restart the region is gone -/
+theorem C24_fails_snapshot_filter (pc : PCfg) (hc : pc.persistFirst = true ∧ pc.snapshotAll = false) :
+    find (prun pc [.upd wTomb true, .rewrite]).mem 1 = some wTomb ∧
+    find (replay (prun pc [.upd wTomb true, .rewrite]).log) 1 = none := by
+  cases pc with
+  | mk a b => obtain ⟨h1, h2⟩ := hc; simp only at h1 h2; subst h1; subst h2; decide
+
+/-- non-vacuity: a history with a failed append, a rewrite and a restart; the region survives -/
+example : find (prun PCfg.good [.upd wTomb true, .upd { wTomb with id := 2 } false, .rewrite, .reopen]).mem 1 = some wTomb ∧
+    find (prun PCfg.good [.upd wTomb true, .upd { wTomb with id := 2 } false, .rewrite, .reopen]).mem 2 = none := by decide
 
 /-! ### as-is: `handleMergeCommand` only ever extends the end key (finding `merge-extend-end-only`) -/
 
